@@ -246,6 +246,22 @@ Spellings(specs, mode, inv) ==
   {o \o r : o \in OptSpell(specs, mode, inv.opts, 1), r \in OperandSpell(inv.operands)}
 
 (***************************************************************************)
+(* One plain spelling of an invocation: every option by itself, by its     *)
+(* short name if it has one, option-arguments as separate arguments, `--`  *)
+(* only where needed.  (An element of Spellings when the mode allows it.)  *)
+(***************************************************************************)
+RECURSIVE PlainOpts(_, _, _)
+PlainOpts(specs, opts, m) ==
+  IF m > Len(opts) THEN <<>>
+  ELSE LET o == opts[m]
+           name == IF specs[o.i].s # "" THEN <<Hy, specs[o.i].s>> ELSE DD \o specs[o.i].l
+       IN <<name>> \o (IF o.has THEN <<o.arg>> ELSE <<>>) \o PlainOpts(specs, opts, m + 1)
+PlainVec(specs, inv) ==
+  PlainOpts(specs, inv.opts, 1)
+  \o (IF inv.operands = <<>> \/ ~OptionLike(inv.operands[1]) THEN <<>> ELSE <<DD>>)
+  \o inv.operands
+
+(***************************************************************************)
 (* Judging an observed outcome (used by Trace_OptParse).  The observation  *)
 (* is [ok, opts: Seq([i, sp, f, has, k, arg]), operands, err, fld, pn]:    *)
 (* f / k = index of the argument the occurrence's location / the           *)
